@@ -332,6 +332,33 @@ pub fn zlib_stored(data: &[u8], block: usize) -> Vec<u8> {
     out
 }
 
+// ---------------------------------------------------------------- zlib, one fixed-Huffman block of literals
+/// RFC 1951 3.2.6: BFINAL=1, BTYPE=01, every byte as a literal with the fixed code (8 bits for
+/// 0..=143, 9 bits for 144..=255, most significant code bit first), end-of-block 0000000; bits are
+/// packed starting at the least significant bit of each byte.  Twin of `Codec.zlibFixed`.
+pub fn zlib_fixed(data: &[u8]) -> Vec<u8> {
+    let mut bits: Vec<bool> = vec![true, true, false];
+    for &b in data {
+        let (code, len) = if b < 144 { (48 + b as u32, 8) } else { (256 + b as u32, 9) };
+        for i in (0..len).rev() {
+            bits.push((code >> i) & 1 == 1);
+        }
+    }
+    bits.extend([false; 7]);
+    let mut out = vec![0x78, 0x01];
+    for chunk in bits.chunks(8) {
+        let mut byte = 0u8;
+        for (i, &bit) in chunk.iter().enumerate() {
+            if bit {
+                byte |= 1 << i;
+            }
+        }
+        out.push(byte);
+    }
+    out.extend_from_slice(&adler32(data).to_be_bytes());
+    out
+}
+
 // ---------------------------------------------------------------- white space
 pub const PDF_WS: &[u8] = &[0, 9, 10, 12, 13, 32];
 pub const ASCII_WS: &[u8] = &[9, 10, 12, 13, 32];
